@@ -12,9 +12,10 @@ They follow from the invariant `Inv` (Proofs/Async.lean, `Inv.run`).
 
 *settled* = every started fetch has completed (or was dropped) and no task is woken.
 
-The model is the code AFTER two repairs (hooks/fix-c10-1.patch, fix-c10-2.patch); with them
-`C10_settles_on_latest` holds at full strength.  The code before each repair is kept as `runOld1` /
-`runOld2` (Model/Async.lean, validated against the unrepaired code by the same correspondence harness)
+The model is the code AFTER three repairs (hooks/fix-c10-1.patch, fix-c10-2.patch, fix-c10-3.patch); with
+the first two `C10_settles_on_latest` holds at full strength, with the third
+`C10_suspense_forgets_dropped_readers`.  The code before each repair is kept as `runOld1` /
+`runOld2` / `runOld3` (Model/Async.lean, validated against the unrepaired code by the same correspondence harness)
 with the regression witnesses at the end of this file:
 
 * F-C10-1 (`C10_dirty_stolen_witness`): a dependent that had the derived among its sources and was
@@ -219,6 +220,8 @@ theorem step_hist (s : State) (e : Event) :
   | bread =>
     simp only [step, bread]
     (repeat' split) <;> exact ⟨rfl, rfl, rfl, .inl⟩
+  | attachS => exact ⟨rfl, rfl, rfl, .inl⟩
+  | bdrop => exact ⟨rfl, rfl, rfl, .inl⟩
 
 theorem foldl_hist (s : State) (es : List Event) :
     (es.foldl step s).eff = s.eff ∧
@@ -381,7 +384,8 @@ theorem C10_in_flight_reads_current (c : Cfg) (es : List Event) (hv : (run c es)
 /-- At every settled point every task that awaited the derived has been resumed with a value
 (no awaiter is left parked in `wakers`, none is still waiting to be polled). -/
 theorem C10_awaiters_resumed (c : Cfg) (es : List Event) (hs : settled (run c es) = true) :
-    ∀ a ∈ (run c es).aws, a.done = true ∧ a.parked = false ∧ (a.kind ≠ .tick → a.result ≠ none) := by
+    ∀ a ∈ (run c es).aws, a.done = true ∧ a.parked = false ∧
+      (a.kind ≠ .tick → a.aborted = false → a.result ≠ none) := by
   have h := Inv.run c es
   obtain ⟨_, hl, _, hrl, _⟩ := settled_waiting h hs
   obtain ⟨_, _, hw⟩ := readyList_nil hrl
@@ -596,6 +600,8 @@ theorem C10_sync_read_is_previous_or_none (s : State) (e : Event) :
     refine .inl ?_
     simp only [step, bread]
     (repeat' split) <;> rfl
+  | attachS => exact .inl rfl
+  | bdrop => exact .inl rfl
 
 /-! ## dependents -/
 
@@ -681,6 +687,106 @@ theorem C10_suspense_released_when_settled (c : Cfg) (es : List Event) (hs : set
   obtain ⟨hpc, _, _, hrl, _⟩ := settled_waiting (Inv.run c es) hs
   exact C10_suspense_released_when_idle c es hrl (by simp [hpc])
 
+/-! ### readers that go away -/
+
+theorem applyResult_noReader (s : State) : (applyResult s).noReader = s.noReader := by
+  simp only [applyResult]
+  split <;> simp [notifySubs_noReader]
+
+theorem fetchState_noReader (s : State) : (fetchState s).noReader = s.noReader := by
+  rcases fetchState_cases s with ⟨_, _, _, _, heq⟩ | heq <;> rw [heq]
+
+theorem chk_noReader (s : State) : (chk s).1.noReader = s.noReader := by
+  simp only [chk, dNeedsRerun, smUpdate]
+  (repeat' split) <;> rfl
+
+theorem dIter_noReader (s : State) : (dIter s).1.noReader = s.noReader := by
+  rw [dIter_def]
+  split
+  · rfl
+  · split
+    · split
+      · exact (applyResult_noReader _).trans (fetchState_noReader s)
+      · exact fetchState_noReader s
+    · exact chk_noReader s
+
+theorem dLoop_noReader (n : Nat) (s : State) : (dLoop n s).noReader = s.noReader := by
+  induction n generalizing s with
+  | zero => rfl
+  | succ n ih =>
+    rw [dLoop]
+    split
+    · exact (ih _).trans (dIter_noReader s)
+    · exact dIter_noReader s
+
+theorem pollD_noReader (s : State) : (pollD s).noReader = s.noReader := by
+  unfold pollD
+  dsimp only
+  split
+  · split <;> exact dLoop_noReader _ _
+  · exact dLoop_noReader _ _
+  · split
+    · exact (dLoop_noReader _ _).trans (applyResult_noReader _)
+    · rfl
+
+/-- only a new reader under the boundary (`bread`, `attachS`) ends "no reader" -/
+theorem step_noReader (s : State) (e : Event) (hb : e ≠ .bread) (ha : e ≠ .attachS)
+    (h : s.noReader = true) : (step s e).noReader = true := by
+  cases e with
+  | set i v => exact (setSrc_susp s i v).2.2.2.2.2.2.2.2.2.trans h
+  | refetch => exact (refetch_susp s).2.2.2.2.2.2.2.2.2.trans h
+  | manualSet v => simp only [step, manualSet, notifySubs_noReader]; exact h
+  | complete f => exact (complete_susp s f).2.2.2.2.2.2.2.2.2.trans h
+  | attach => exact h
+  | poll j =>
+    simp only [step, pollNth]
+    split
+    · rename_i t _
+      cases t
+      · show (pollT0 s).noReader = true
+        unfold pollT0
+        split <;> exact h
+      · exact (pollD_noReader s).trans h
+      · exact ((eLoop_susp 4 { s with eWoken := false }).2.2.2.2.2.2.2.2.2).trans h
+      · exact h
+    · exact h
+  | get => exact h
+  | bread => exact absurd rfl hb
+  | attachS => exact absurd rfl ha
+  | bdrop => rfl
+
+theorem foldl_noReader (s : State) (es : List Event) (hes : ∀ e ∈ es, e ≠ .bread ∧ e ≠ .attachS)
+    (h : s.noReader = true) : (es.foldl step s).noReader = true := by
+  induction es generalizing s with
+  | nil => exact h
+  | cons e es ih =>
+    have he := hes e (by simp)
+    exact ih _ (fun x hx => hes x (by simp [hx])) (step_noReader s e he.1 he.2 h)
+
+/-- F-C10-3 (= F-C04-5) repaired.  A boundary never waits on behalf of a reader that is gone: once every reader
+under the boundary has been disposed (`bdrop`: a `<Show>` closed, a row removed, a tab switched — the readers'
+owners are cleaned up, their awaiting futures dropped), then — whatever happened before, and whatever happens
+afterwards short of a NEW reader reading or awaiting the value under the boundary: writes, reloads,
+completions, polls in any order — the boundary's task list is empty, nothing is registered for the next run
+and the loop holds no task id.  Before the repair a later reload found the registration of the reader that
+was gone and made the boundary fall back (`C10_stale_registration_witness`). -/
+theorem C10_suspense_forgets_dropped_readers (c : Cfg) (es es' : List Event)
+    (hes : ∀ e ∈ es', e ≠ .bread ∧ e ≠ .attachS) :
+    (run c (es ++ .bdrop :: es')).pending = 0 ∧ (run c (es ++ .bdrop :: es')).susp = 0 ∧
+    (run c (es ++ .bdrop :: es')).idsHeld = 0 := by
+  have hn : (run c (es ++ .bdrop :: es')).noReader = true := by
+    unfold run
+    rw [List.foldl_append, List.foldl_cons]
+    exact foldl_noReader _ es' hes rfl
+  obtain ⟨h1, h2, h3, _⟩ := (SInv.run c (es ++ .bdrop :: es')).p4 hn
+  exact ⟨h1, h2, h3⟩
+
+/-- ... and a boundary nothing has ever read under waits for nothing -/
+theorem C10_suspense_idle_without_readers (c : Cfg) (es : List Event)
+    (hes : ∀ e ∈ es, e ≠ .bread ∧ e ≠ .attachS) : (run c es).pending = 0 := by
+  have hn : (run c es).noReader = true := foldl_noReader _ es hes (by simp [init])
+  exact ((SInv.run c es).p4 hn).1
+
 /-! ## the version test -/
 
 /-- `latest_version == this_version` can never fail: only the derived's own task increments `version`,
@@ -751,9 +857,44 @@ theorem C10_settles_on_latest_old2_false :
   rw [w.2.2.2.1, w.2.2.2.2.1] at this
   exact absurd this (by decide)
 
-/-- with both repairs switched on the parameterised chain IS the model -/
-theorem runV_repaired (c : Cfg) (es : List Event) : runV true true c es = run c es := by
-  have hstep : ∀ (s : State) (e : Event), stepV true true s e = step s e := by
+/-- the first load has finished; a reader under the boundary reads the value and is disposed; the source is
+written and the derived's task starts the reload -/
+def c10DropEvents : List Event := [.poll 0, .complete 0, .poll 0, .bread, .poll 0]
+
+def c10DropTail : List Event := [.set 0 1, .poll 0]
+
+/-- F-C10-3 = F-C04-5 (repaired): the reload used to take the registration the disposed reader had left and
+held a task id of the boundary until it finished — the boundary fell back although nothing below it read the
+value any more; an awaiter (`attachS`) left the same registration; a reader disposed DURING a reload kept the
+id until the reload finished.  Now all three end with their reader. -/
+theorem C10_stale_registration_witness :
+    (runOld3 {} (c10DropEvents ++ .bdrop :: c10DropTail)).noReader = true ∧
+    (runOld3 {} (c10DropEvents ++ .bdrop :: c10DropTail)).pc = .fetching ∧
+    (runOld3 {} (c10DropEvents ++ .bdrop :: c10DropTail)).pending = 1 ∧
+    (run {} (c10DropEvents ++ .bdrop :: c10DropTail)).pc = .fetching ∧
+    (run {} (c10DropEvents ++ .bdrop :: c10DropTail)).pending = 0 ∧
+    -- an awaiter instead of a synchronous read
+    (runOld3 {} ([.poll 0, .complete 0, .poll 0, .attachS, .poll 0] ++ .bdrop :: c10DropTail)).pending = 1 ∧
+    (run {} ([.poll 0, .complete 0, .poll 0, .attachS, .poll 0] ++ .bdrop :: c10DropTail)).pending = 0 ∧
+    -- disposed while the reload holds the id
+    (runOld3 {} (c10DropEvents ++ [.set 0 1, .poll 0] ++ .bdrop :: [])).pending = 1 ∧
+    (run {} (c10DropEvents ++ [.set 0 1, .poll 0] ++ .bdrop :: [])).pending = 0 ∧
+    -- control: the reader is still there — the boundary waits for the reload, before and after the repair
+    (runOld3 {} (c10DropEvents ++ c10DropTail)).pending = 1 ∧
+    (run {} (c10DropEvents ++ c10DropTail)).pending = 1 := by decide
+
+/-- `C10_suspense_forgets_dropped_readers` was false of the code before repair 3 -/
+theorem C10_suspense_forgets_dropped_readers_old3_false :
+    ¬ ∀ (c : Cfg) (es es' : List Event), (∀ e ∈ es', e ≠ .bread ∧ e ≠ .attachS) →
+        (runOld3 c (es ++ .bdrop :: es')).pending = 0 := by
+  intro h
+  have := h {} c10DropEvents c10DropTail (by decide)
+  rw [C10_stale_registration_witness.2.2.1] at this
+  exact absurd this (by decide)
+
+/-- with all three repairs switched on the parameterised chain IS the model -/
+theorem runV_repaired (c : Cfg) (es : List Event) : runV true true true c es = run c es := by
+  have hstep : ∀ (s : State) (e : Event), stepV true true true s e = step s e := by
     intro s e
     cases e <;> try rfl
     rename_i j
